@@ -57,6 +57,10 @@ def replay(prop, payload):
         open(inp, 'w').write(_tlc_string_line('CASE', payload['event']['cfg']))
         vlib.harness(['cli', '-cases', inp, '-bin', vlib.build_cli(), '-out', out, '-shards', '1', '-seed', str(vlib.seed() * 100)])
         mm = _validate('CliTrace', sorted(glob.glob(out + '/*.ndjson')))
+    elif kind == 'diffmerge':
+        open(inp, 'w').write(json.dumps(payload['case']))
+        vlib.harness(['diffmerge', '-case', inp, '-out', out])
+        mm = _validate('DiffMergeTrace', sorted(glob.glob(out + '/*.ndjson')), cfg=m1.diffmerge_trace_cfg(payload['case']['N']))
     else:
         raise Infra('unknown replay kind %r' % kind)
     if mm:
